@@ -819,4 +819,295 @@ theorem other_linv (sh sh' : Shared) (E E' : Events.S) (j : Job) (rg : Regs) (ph
       obtain ⟨e, he, r⟩ := h.pub hp
       exact ⟨e, hF.pub e he, r⟩) }
 
+-- ------------------------------------------------------------------------------------------------ the invariant
+
+/-- a segment ends only with nothing allocated-and-unappended and no peek unrecorded -/
+theorem seg_end (ep : String) (ph ph' : EPh) (x : Item) (rest : Path) (hlive : ph.dead = false) (hlive' : ph'.dead = false)
+    (hph : estep ep ph x = some ph') (hrest : eacc (erun ep ph' rest) = true)
+    (hend : (endsSegment x || rest.isEmpty) = true) : ph'.al = false ∧ ph'.pk ≠ .inSeg := by
+  simp only [Bool.or_eq_true] at hend
+  rcases hend with hend | hend
+  · simp only [estep, hlive, Bool.false_eq_true, if_false] at hph
+    cases x with
+    | act a o v =>
+      cases a <;> simp [endsSegment] at hend
+      simp only [estep'] at hph
+      split at hph
+      · cases hph
+      · rename_i hal
+        split at hph
+        · rename_i hpk; obtain rfl := Option.some.inj hph; simp [hpk, hal]
+        · split at hph
+          · obtain rfl := Option.some.inj hph; simp [hal]
+          · cases hph
+        · rename_i hpk
+          split at hph
+          · cases hph
+          · obtain rfl := Option.some.inj hph; simp [hpk, hal]
+    | fin ok cls =>
+      simp only [estep'] at hph
+      split at hph
+      · cases hph
+      · rename_i hc
+        simp only [Bool.or_eq_true, decide_eq_true_eq, not_or, Bool.not_eq_true] at hc
+        have : ph' = ph := by
+          split at hph
+          · exact (Option.some.inj hph).symm
+          · split at hph
+            · cases hph
+            · split at hph
+              · exact (Option.some.inj hph).symm
+              · cases hph
+            · split at hph
+              · cases hph
+              · split at hph
+                · exact (Option.some.inj hph).symm
+                · split at hph
+                  · split at hph
+                    · exact (Option.some.inj hph).symm
+                    · cases hph
+                  · split at hph
+                    · exact (Option.some.inj hph).symm
+                    · cases hph
+        subst this
+        exact hc
+    | _ => simp [endsSegment] at hend
+  · have : rest = [] := by simpa using hend
+    subst this
+    simp only [erun, eacc, efinal, hlive', Bool.false_or, Bool.and_eq_true, Bool.not_eq_true', bne_iff_ne, ne_eq] at hrest
+    exact hrest
+
+/-- one request in a state of the system: where the automaton is, and what its flags mean -/
+structure PInv (dry isTxKind : Nat → Bool) (rn : Option Nat) (sh : Shared) (E : Events.S) (p : Proc) (ph : EPh) : Prop where
+  run : erun p.job.ep {} p.done = some ph
+  rest : eacc (erun p.job.ep ph p.todo) = true
+  job : JobOK dry isTxKind p.job
+  linv : LInv sh E p.job p.regs ph
+  /-- a request that is not in the middle of a segment has nothing allocated and no peek in flight -/
+  seg : rn ≠ some p.job.a → ph.al = false ∧ ph.pk ≠ .inSeg
+  lt : rn = some p.job.a → LT sh E ph.al
+
+structure GInv (dry isTxKind : Nat → Bool) (y : YState) (E : Events.S) : Prop where
+  glob : Glob y.st.sh E
+  nodup : (y.st.procs.map (·.job.a)).Nodup
+  /-- between segments the machine's `lastTx` is the commander's -/
+  idle : y.running = none → y.st.sh.lastTx = E.lastTx
+  owner : ∀ a, y.running = some a → ∃ p ∈ y.st.procs, p.alive = true ∧ p.job.a = a
+  procs : ∀ p ∈ y.st.procs, p.alive = true → ∃ ph, PInv dry isTxKind y.running y.st.sh E p ph
+  /-- the machine has records only about requests that exist -/
+  known : ∀ b, (mineOf E b ≠ none ∨ foundOf E b ≠ none) → ∃ p ∈ y.st.procs, p.job.a = b
+
+theorem others_ne (pre post : List Proc) (P q : Proc) (hnd : ((pre ++ P :: post).map (·.job.a)).Nodup)
+    (hq : q ∈ pre ∨ q ∈ post) : q.job.a ≠ P.job.a := by
+  simp only [List.map_append, List.map_cons] at hnd
+  have h1 := List.nodup_append.1 hnd
+  rcases hq with hq | hq
+  · intro he
+    exact h1.2.2 _ (List.mem_map_of_mem hq) _ (List.mem_cons_self ..) he
+  · intro he
+    have h2 := (List.nodup_cons.1 h1.2.1).1
+    exact h2 (he ▸ List.mem_map_of_mem hq)
+
+theorem init_linv (sh : Shared) (E : Events.S) (j : Job) (h1 : mineOf E j.a = none) (h2 : foundOf E j.a = none) :
+    LInv sh E j {} {} :=
+  { live := rfl, dry := fun _ h => (by cases h), tx := fun h => (by cases h), ch0 := fun _ => rfl, ch1 := fun h => (by cases h),
+    mine := h1, appq := fun h => (by cases h), durApp := fun h => (by cases h), dur := fun h => (by cases h), fnd := h2,
+    fndS := fun h => (by cases h), kOk := fun h => (by cases h), idOk := fun h => (by cases h), pkS := fun h => (by cases h),
+    pkR := fun h => (by cases h), pub := fun h => (by cases h), ansI := fun h => (by cases h), ansP := fun h => (by cases h) }
+
+theorem countTx_eq (ls : List LogE) : Events.countTx ls = countTx ls := rfl
+
+/-- **the step lemma**: whatever the system does next under the yield-point discipline, `Events` accepts the events and
+the invariant is kept -/
+theorem stepY_inv (dry isTxKind : Nat → Bool) (adm : Job → Path → Prop)
+    (hadm : ∀ j p, adm j p → eaccepts j.ep p = true ∧ JobOK dry isTxKind j)
+    (y y' : YState) (evs : List Ev) (h : StepY adm y evs y') (E : Events.S) (hi : GInv dry isTxKind y E)
+    (hids : Chain.idsOk 0 y.st.sh.store) :
+    ∃ E', runOn (Events.step dry isTxKind) E evs = .ok E' ∧ GInv dry isTxKind y' E' := by
+  cases h with
+  | item pre post j rg dn x rest hp hen hrun =>
+    have hmemP : (⟨j, rg, dn, true, x :: rest⟩ : Proc) ∈ y.st.procs := by rw [hp]; simp
+    obtain ⟨ph, hP⟩ := hi.procs _ hmemP rfl
+    obtain ⟨ph', hph, hrest⟩ := erun_cons_acc j.ep ph x rest hP.rest
+    have hLT : LT y.st.sh E ph.al := by
+      rcases hrun with hr | hr
+      · have := (hP.seg (by rw [hr]; simp)).1
+        rw [this]
+        simp [LT, hi.idle hr]
+      · exact hP.lt hr
+    obtain ⟨E', hrunE, hL', hLT', hG', hF⟩ :=
+      item_step dry isTxKind y.st.sh E j rg ph ph' hP.job hP.linv hLT hi.glob hids x hen hph
+    have hnd := hi.nodup
+    rw [hp] at hnd
+    have hse := seg_end j.ep ph ph' x rest hP.linv.live hL'.live hph hrest
+    have main : ∀ r', (r' = none → ph'.al = false ∧ ph'.pk ≠ .inSeg) → (r' = none ∨ r' = some j.a) →
+        GInv dry isTxKind ⟨⟨effSh y.st.sh j rg x, pre ++ ⟨j, effRg y.st.sh j rg x, dn ++ [x], true, rest⟩ :: post⟩, r'⟩ E' := by
+      intro r' hr1 hr2
+      have hother : ∀ q, (q ∈ pre ∨ q ∈ post) → q.alive = true →
+          ∃ phq, PInv dry isTxKind r' (effSh y.st.sh j rg x) E' q phq := by
+        intro q hq hal
+        obtain ⟨phq, hQ⟩ := hi.procs q (by rw [hp]; rcases hq with hq | hq <;> simp [hq]) hal
+        have hne : q.job.a ≠ j.a := others_ne pre post ⟨j, rg, dn, true, x :: rest⟩ q hnd hq
+        have hnr : y.running ≠ some q.job.a := by
+          rcases hrun with hr | hr <;> rw [hr]
+          · simp
+          · intro he; exact hne (Option.some.inj he).symm
+        have hs := hQ.seg hnr
+        refine ⟨phq, hQ.run, hQ.rest, hQ.job, other_linv _ _ E E' q.job q.regs phq hQ.linv (hF _ hne) hs.2, fun _ => hs, ?_⟩
+        intro hr
+        rcases hr2 with h | h <;> rw [h] at hr
+        · cases hr
+        · exact absurd (Option.some.inj hr).symm hne
+      refine ⟨hG', ?_, ?_, ?_, ?_, ?_⟩
+      · simpa using hnd
+      · intro hr
+        have := (hr1 hr).1
+        unfold LT at hLT'
+        rw [this] at hLT'
+        simpa using hLT'
+      · intro a ha
+        rcases hr2 with h | h <;> rw [h] at ha
+        · cases ha
+        · exact ⟨⟨j, effRg y.st.sh j rg x, dn ++ [x], true, rest⟩, by simp, rfl, Option.some.inj ha⟩
+      · intro q hq hal
+        simp only [List.mem_append, List.mem_cons] at hq
+        rcases hq with hq | rfl | hq
+        · exact hother q (.inl hq) hal
+        · refine ⟨ph', by simp [erun_snoc, hP.run, hph], hrest, hP.job, hL', ?_, fun _ => hLT'⟩
+          intro hne
+          rcases hr2 with h | h
+          · exact hr1 h
+          · exact absurd h hne
+        · exact hother q (.inr hq) hal
+      · intro b hb
+        by_cases hbj : b = j.a
+        · exact ⟨⟨j, effRg y.st.sh j rg x, dn ++ [x], true, rest⟩, by simp, hbj.symm⟩
+        · have hf := hF b hbj
+          rw [hf.mine, hf.found] at hb
+          obtain ⟨p, hp1, hp2⟩ := hi.known b hb
+          rw [hp] at hp1
+          simp only [List.mem_append, List.mem_cons] at hp1
+          rcases hp1 with hp1 | rfl | hp1
+          · exact ⟨p, by simp [hp1], hp2⟩
+          · exact absurd hp2.symm hbj
+          · exact ⟨p, by simp [hp1], hp2⟩
+    refine ⟨E', hrunE, ?_⟩
+    by_cases hend : (endsSegment x || rest.isEmpty) = true
+    · rw [if_pos hend]
+      exact main none (fun _ => hse hend) (.inl rfl)
+    · rw [if_neg hend]
+      exact main (some j.a) (fun h => by cases h) (.inr rfl)
+  | gate n ok h0 hn hrun =>
+    have hlen : E.pending.length = y.st.sh.queue.length := by rw [hi.glob.pend]; simp
+    have hcond : ¬ (n = 0 ∨ n > E.pending.length) := by omega
+    cases ok with
+    | false =>
+      refine ⟨E, by simp [runOn, Events.step, hcond], ?_⟩
+      obtain ⟨st, r⟩ := y
+      simp only at hrun
+      subst hrun
+      simpa using hi
+    | true =>
+      refine ⟨{ E with durable := E.durable ++ E.pending.take n, pending := E.pending.drop n },
+        by simp [runOn, Events.step, hcond], ?_⟩
+      simp only [if_true]
+      have hfr : ∀ b, Frame y.st.sh (persist y.st.sh n) E
+          { E with durable := E.durable ++ E.pending.take n, pending := E.pending.drop n } b := by
+        intro b
+        refine ⟨fun l hl => by simp [persist, hl], ?_, fun _ h => h, rfl, rfl, rfl⟩
+        intro q hq
+        rw [← List.take_append_drop n y.st.sh.queue] at hq
+        rcases List.mem_append.1 hq with hq | hq
+        · exact .inr (by simp only [persist, List.mem_append, List.mem_map]; exact .inr ⟨q, hq, rfl⟩)
+        · exact .inl hq
+      refine ⟨⟨by simp [persist, hi.glob.dur, hi.glob.pend, List.map_take], by simp [persist, hi.glob.pend, List.map_drop],
+        hi.glob.lt, ?_, ?_⟩, hi.nodup, fun _ => hi.idle hrun, fun a ha => (by cases ha), ?_, hi.known⟩
+      · intro l hl
+        simp only [persist, List.mem_append, List.mem_map] at hl
+        rcases hl with hl | ⟨q, hq, rfl⟩
+        · exact hi.glob.txS l hl
+        · exact hi.glob.txQ q (List.mem_of_mem_take hq)
+      · intro q hq
+        exact hi.glob.txQ q (List.mem_of_mem_drop hq)
+      · intro q hq hal
+        obtain ⟨phq, hQ⟩ := hi.procs q hq hal
+        have hs := hQ.seg (by rw [hrun]; simp)
+        exact ⟨phq, hQ.run, hQ.rest, hQ.job, other_linv _ _ E _ q.job q.regs phq hQ.linv (hfr _) hs.2, fun _ => hs,
+          fun h => by cases h⟩
+  | crash =>
+    refine ⟨{ E with pending := [], lastTx := (Events.countTx E.durable : Int) - 1 }, by simp [runOn, Events.step], ?_⟩
+    refine ⟨⟨hi.glob.dur, by simp [restart], by simp only; omega, hi.glob.txS, by simp [restart]⟩, ?_, ?_, fun a ha => (by cases ha), ?_, ?_⟩
+    · have := hi.nodup
+      simpa [List.map_map, Function.comp_def] using this
+    · intro _
+      simp [restart, hi.glob.dur, countTx_eq]
+    · intro q hq hal
+      simp only [List.mem_map] at hq
+      obtain ⟨q0, _, rfl⟩ := hq
+      simp at hal
+    · intro b hb
+      obtain ⟨p, hp1, hp2⟩ := hi.known b hb
+      exact ⟨{ p with alive := false, todo := [] }, List.mem_map.2 ⟨p, hp1, rfl⟩, hp2⟩
+  | arrive j p hfresh hadm' =>
+    obtain ⟨hacc, hjob⟩ := hadm j p hadm'
+    have hnew : ∀ q ∈ y.st.procs, q.job.a ≠ j.a := hfresh
+    have hm : mineOf E j.a = none ∧ foundOf E j.a = none := by
+      cases h1 : mineOf E j.a with
+      | some l =>
+        obtain ⟨q, hq1, hq2⟩ := hi.known j.a (.inl (by simp [h1]))
+        exact absurd hq2 (hnew q hq1)
+      | none =>
+        cases h2 : foundOf E j.a with
+        | some l =>
+          obtain ⟨q, hq1, hq2⟩ := hi.known j.a (.inr (by simp [h2]))
+          exact absurd hq2 (hnew q hq1)
+        | none => exact ⟨rfl, rfl⟩
+    have hnr : y.running ≠ some j.a := by
+      intro hr
+      obtain ⟨q, hq1, _, hq2⟩ := hi.owner j.a hr
+      exact hnew q hq1 hq2
+    refine ⟨E, rfl, ⟨hi.glob, ?_, hi.idle, ?_, ?_, ?_⟩⟩
+    · simp only [List.map_append, List.map_cons, List.map_nil]
+      refine List.nodup_append.2 ⟨hi.nodup, by simp, ?_⟩
+      intro a ha b hb
+      simp only [List.mem_map] at ha
+      obtain ⟨q, hq, rfl⟩ := ha
+      simp only [List.mem_singleton] at hb
+      subst hb
+      exact hfresh q hq
+    · intro a ha
+      obtain ⟨q, hq, hal, hqa⟩ := hi.owner a ha
+      exact ⟨q, by simp [hq], hal, hqa⟩
+    · intro q hq hal
+      simp only [List.mem_append, List.mem_singleton] at hq
+      rcases hq with hq | rfl
+      · exact hi.procs q hq hal
+      · exact ⟨{}, rfl, hacc, hjob, init_linv _ E j hm.1 hm.2, fun _ => ⟨rfl, by simp⟩, fun h => absurd h hnr⟩
+    · intro b hb
+      obtain ⟨q, hq1, hq2⟩ := hi.known b hb
+      exact ⟨q, by simp [hq1], hq2⟩
+
+theorem init_ginv (dry isTxKind : Nat → Bool) (store : List LogE) (hstore : ∀ l ∈ store, TxHasId l) :
+    GInv dry isTxKind ⟨init store, none⟩ (Events.init store) := by
+  refine ⟨⟨rfl, rfl, ?_, hstore, by simp [init, restart]⟩, by simp [init], ?_, fun a ha => (by cases ha), ?_, ?_⟩
+  · simp only [Events.init]; omega
+  · intro _; simp [init, restart, Events.init, countTx_eq]
+  · intro p hp; simp [init] at hp
+  · intro b hb
+    simp [mineOf, foundOf, Events.init] at hb
+
+/-- **`SkelSys`, scheduled at its yield points, refines `Events`** -/
+theorem runY_refines (dry isTxKind : Nat → Bool) (adm : Job → Path → Prop)
+    (hadm : ∀ j p, adm j p → eaccepts j.ep p = true ∧ JobOK dry isTxKind j)
+    (y0 y : YState) (tr : List Ev) (h : RunY adm y0 tr y)
+    (hchain : ∀ tr' y', RunY adm y0 tr' y' → Chain.idsOk 0 y'.st.sh.store)
+    (E0 : Events.S) (hi : GInv dry isTxKind y0 E0) :
+    ∃ E, runOn (Events.step dry isTxKind) E0 tr = .ok E ∧ GInv dry isTxKind y E := by
+  induction h with
+  | nil => exact ⟨E0, rfl, hi⟩
+  | cons y1 y2 evs tr hrun hstep ih =>
+    obtain ⟨E1, h1, hi1⟩ := ih
+    obtain ⟨E2, h2, hi2⟩ := stepY_inv dry isTxKind adm hadm y1 y2 evs hstep E1 hi1 (hchain _ _ hrun)
+    exact ⟨E2, by rw [runOn_append, h1]; exact h2, hi2⟩
+
 end Engine.Skel.EventsRef
